@@ -30,6 +30,11 @@ const (
 	TEdge   // edgecomposite(id int8, start_id int8, end_id int8, kind_id int2, properties jsonb)
 	TPath   // pathcomposite(nodes nodecomposite[], edges edgecomposite[])
 	TRecord // anonymous row type
+	// TNullAny is the type tag of a NULL whose PostgreSQL type pgeval does not track (the null-extended side of an outer
+	// join over a sub-query, an empty scalar sub-query, CASE without ELSE, an aggregate over no rows). PostgreSQL knows
+	// the static type; since every operator pgeval models returns NULL for a NULL operand of the right type, such a NULL
+	// simply propagates. Only Null values carry this tag.
+	TNullAny
 	tMaxScalar
 
 	// TArray is a flag: TArray|elem is elem[] (one-dimensional; the translator emits no multi-dimensional arrays).
@@ -80,6 +85,8 @@ func (t Type) String() string {
 		return "pathcomposite"
 	case TRecord:
 		return "record"
+	case TNullAny:
+		return "null"
 	}
 	return fmt.Sprintf("type#%d", uint8(t))
 }
@@ -88,41 +95,49 @@ func (t Type) String() string {
 //
 //	bool            I (0/1)
 //	int2/4/8        I
-//	float4/8        F
-//	numeric         N
+//	float4/8        F() (bits in I)
+//	numeric         N() (X)
 //	text, unknown   S
-//	jsonb           J (nil=json null, bool, Num, string, []any, map[string]any)
-//	composite       A (fields)
-//	array           A (elements)
+//	jsonb           J() (X: nil=json null, bool, Num, string, []any, map[string]any)
+//	composite       A() (X: fields)
+//	array           A() (X: elements)
 type Value struct {
 	T    Type
 	Null bool
-	I    int64
-	F    float64
-	S    string
-	N    Num
-	J    any
-	A    []Value
+	I    int64  // bool, integers; the IEEE bits of a float
+	S    string // text, unknown
+	X    any    // numeric: Num; jsonb: the JSON value; composite / array: []Value
 }
 
+// F is the float value, N the numeric, J the JSON value, A the fields / elements.
+func (v Value) F() float64 { return math.Float64frombits(uint64(v.I)) }
+func (v Value) N() Num     { n, _ := v.X.(Num); return n }
+func (v Value) J() any     { return v.X }
+func (v Value) A() []Value { a, _ := v.X.([]Value); return a }
+
+func floatBits(f float64) int64 { return int64(math.Float64bits(f)) }
+
 // Constructors.
-func Null(t Type) Value        { return Value{T: t, Null: true} }
-func Bool(b bool) Value        { return Value{T: TBool, I: b2i(b)} }
-func Int2(i int64) Value       { return Value{T: TInt2, I: i} }
-func Int4(i int64) Value       { return Value{T: TInt4, I: i} }
-func Int8(i int64) Value       { return Value{T: TInt8, I: i} }
-func Float8(f float64) Value   { return Value{T: TFloat8, F: f} }
-func Numeric(n Num) Value      { return Value{T: TNumeric, N: n} }
-func Text(s string) Value      { return Value{T: TText, S: s} }
-func Unknown(s string) Value   { return Value{T: TUnknown, S: s} }
-func JSONB(j any) Value        { return Value{T: TJSONB, J: j} }
+func Null(t Type) Value { return Value{T: t, Null: true} }
+
+// NullAny is a NULL of a type pgeval does not track.
+func NullAny() Value         { return Value{T: TNullAny, Null: true} }
+func Bool(b bool) Value      { return Value{T: TBool, I: b2i(b)} }
+func Int2(i int64) Value     { return Value{T: TInt2, I: i} }
+func Int4(i int64) Value     { return Value{T: TInt4, I: i} }
+func Int8(i int64) Value     { return Value{T: TInt8, I: i} }
+func Float8(f float64) Value { return Value{T: TFloat8, I: floatBits(f)} }
+func Numeric(n Num) Value    { return Value{T: TNumeric, X: n} }
+func Text(s string) Value    { return Value{T: TText, S: s} }
+func Unknown(s string) Value { return Value{T: TUnknown, S: s} }
+func JSONB(j any) Value      { return Value{T: TJSONB, X: j} }
 func Array(elem Type, a []Value) Value {
 	if a == nil {
 		a = []Value{}
 	}
-	return Value{T: elem.ArrayOf(), A: a}
+	return Value{T: elem.ArrayOf(), X: a}
 }
-func Composite(t Type, fields []Value) Value { return Value{T: t, A: fields} }
+func Composite(t Type, fields []Value) Value { return Value{T: t, X: fields} }
 
 func b2i(b bool) int64 {
 	if b {
@@ -197,15 +212,15 @@ func (v Value) TextOut() string {
 	case TInt2, TInt4, TInt8:
 		return strconv.FormatInt(v.I, 10)
 	case TFloat4:
-		return float8Out(float64(float32(v.F)))
+		return float8Out(float64(float32(v.F())))
 	case TFloat8:
-		return float8Out(v.F)
+		return float8Out(v.F())
 	case TNumeric:
-		return v.N.String()
+		return v.N().String()
 	case TText, TUnknown:
 		return v.S
 	case TJSONB:
-		return jsonbOut(v.J)
+		return jsonbOut(v.J())
 	case TNode, TEdge, TPath, TRecord:
 		return recordOut(v)
 	}
@@ -215,7 +230,7 @@ func (v Value) TextOut() string {
 func arrayOut(v Value) string {
 	var sb strings.Builder
 	sb.WriteByte('{')
-	for i, e := range v.A {
+	for i, e := range v.A() {
 		if i > 0 {
 			sb.WriteByte(',')
 		}
@@ -252,7 +267,7 @@ func arrayElemNeedsQuote(s string, t Type) bool {
 func recordOut(v Value) string {
 	var sb strings.Builder
 	sb.WriteByte('(')
-	for i, f := range v.A {
+	for i, f := range v.A() {
 		if i > 0 {
 			sb.WriteByte(',')
 		}
